@@ -3114,6 +3114,8 @@ class Choice(Set):
         """
         oldIdx = self._currentIdx
         Set.setComponentByPosition(self, idx, value, verifyConstraints, matchTags, matchConstraints)
+        if idx < 0:
+            idx += len(self._componentValues)
         self._currentIdx = idx
         if oldIdx is not None and oldIdx != idx:
             self._componentValues[oldIdx] = noValue
